@@ -117,12 +117,54 @@ def deep_input(rng, notation):
         body = (tail[0] + digits + tail[1:]) if len(tail) > 1 else tail + digits + rng.choice(('', tail))
     return q + body
 
+def subscript_vars(rng, ast):
+    "Give the bound variables of a sentence (some) non-zero subscripts, consistently."
+    m = {}
+    def sub(v):
+        if v not in m:
+            m[v] = (v[0], v[1], rng.choice((0, 1, 2, 12)))
+        return m[v]
+    def f(s):
+        k = s[0]
+        if k == 'A': return s
+        if k == 'P': return ('P', s[1], tuple(sub(p) if p[0] == 'v' else p for p in s[2]))
+        if k == 'O': return ('O', s[1], tuple(f(x) for x in s[2]))
+        v = sub(('v',) + tuple(s[2]))
+        return ('Q', s[1], (v[1], v[2]), f(s[3]))
+    return f(ast)
+
+QV = dict(polish=('V', 'S'), standard=('L', 'X'))
+
+def composite(rng, notation, earlier):
+    """An input built around an earlier input of the same history: the earlier text inside a new
+    quantifier that binds one of its own variables (or a new one), or joined to itself."""
+    e = earlier.strip()
+    # variables bound inside the earlier text (the character after a quantifier symbol)
+    vs = [e[i + 1] for i, c in enumerate(e[:-1]) if c in QV[notation] and e[i + 1] in 'xyzv'] or [c for c in e if c in 'xyzv']
+    v = rng.choice(vs) if vs and rng.random() < 0.75 else rng.choice('xyzv')
+    q = rng.choice(QV[notation])
+    if notation == 'polish':
+        return rng.choice(('%s%sK%sF%s' % (q, v, e, v), '%s%sAF%s%s' % (q, v, v, e), 'K%s%s' % (e, e), 'N%s' % e))
+    return rng.choice(('%s%s(%s & F%s)' % (q, v, e, v), '%s%s(F%s V %s)' % (q, v, v, e), '%s%s((%s) V F%s)' % (q, v, e, v),
+                       '(%s) & (%s)' % (e, e), '~%s' % e))
+
 def gen_inputs(rng, cfg, n):
     notation = cfg['notation']
     alpha = ALPHA[notation]
     out = []
+    pending = []
     for _ in range(n):
+        if pending:
+            out.append(pending.pop(0))
+            continue
         r = rng.random()
+        short = [x for x in out if 3 <= len(x) <= 60]
+        if short and rng.random() < 0.1:
+            # prefer earlier inputs that bind a variable and have a binary connective
+            qs, bs = QV[notation], ('KACUEB' if notation == 'polish' else '&V>$<%')
+            rich = [x for x in short if any(c in x for c in qs) and any(c in x for c in bs)]
+            out.append(composite(rng, notation, rng.choice(rich if rich and rng.random() < 0.7 else short))[:200])
+            continue
         if out and len(out[-1]) > 200 and rng.random() < 0.8:
             # right after a very long input: short inputs that use its variables
             out.append(rng.choice(DEEP[notation]['follow']))
@@ -134,13 +176,19 @@ def gen_inputs(rng, cfg, n):
             prof = lexgen.Profile(rng, modal=rng.random() < 0.4, quant=rng.random() < 0.6, preds=rng.random() < 0.8,
                                   identity=rng.random() < 0.3, depth=rng.choice((0, 1, 2, 3)))
             try:
-                text = render(notation, lexgen.gen_sentence(rng, prof))
+                ast = lexgen.gen_sentence(rng, prof)
+                if rng.random() < 0.3:
+                    ast = subscript_vars(rng, ast)
+                text = render(notation, ast)
             except Exception:
                 text = 'a'
             if r >= 0.35:
                 text = mutate(rng, text, alpha)
                 if rng.random() < 0.2:
                     text = mutate(rng, text, alpha)
+            if len(text) <= 24 and rng.random() < 0.12:
+                # end of input at every instant: all proper prefixes, longest first
+                pending.extend(text[:k] for k in range(len(text) - 1, 0, -1))
         elif r < 0.9:
             text = ''.join(rng.choice(alpha if rng.random() < 0.93 else FOREIGN) for _ in range(rng.choice((1, 2, 3, 4, 6, 10, 20))))
         else:
